@@ -285,6 +285,7 @@ func c12RunCase(cs *c12io.Case, sb, scratch string, marker func(tag string)) *c1
 		}
 		obs.Calls = nil
 		obs.Before = c12Snapshot(sb)
+		ip.ResetVars() // the abandoned attempt left the program's variables behind
 		out = exec1(cs.Flags, &obs.Calls, true)
 	}
 	obs.After = c12Snapshot(sb)
